@@ -121,7 +121,12 @@ def element_access(ctx, n):
             objs = None
         elif which == 5:
             dim = rng.choice([2, 3])
-            a = np.array([[stack([g.point(dim, inf=False)], (1,)).data.numpy()[0] for _ in range(2)] for _ in range(m)])
+            def seg():
+                while True:
+                    u, v = g.point(dim, inf=False), g.point(dim, inf=False)
+                    if not proj_close_nn(u.data.cnumpy(), v.data.cnumpy()):
+                        return [u.data.numpy().astype(float), v.data.numpy().astype(float)]
+            a = np.array([seg() for _ in range(m)])
             coll = gm.SegmentCollection(a); cls = gm.Segment
             attrs = lambda x: (x.tensor_shape, x.dim, x.pdim)
             objs = None
